@@ -1931,9 +1931,13 @@ static void atfork_prepare_handler(void)
 
 	uftrace_send_message(UFTRACE_MSG_FORK_START, &tmsg, sizeof(tmsg));
 
-	/* flush remaining contents in the stream */
-	fflush(outfp);
-	fflush(logfp);
+	/*
+	 * flush what libmcount wrote to its own log file.  stdout and stderr
+	 * belong to the traced program: flushing them here changes what a
+	 * program with buffered output prints after fork().
+	 */
+	if (logfp != stderr)
+		fflush(logfp);
 }
 
 static void atfork_child_handler(void)
